@@ -339,5 +339,131 @@ func stageDqcache(out string, seed uint64, tier string) error {
 		}
 		add(h, class)
 	}
+	// ---- unpinned repositories only: every index has the name "" (what NewMultiArch produces) -------------
+	// The cache key is then the concatenation in map-iteration order: two calls with one map may walk different
+	// trie paths (a miss, recomputed), and groupings that agree in everything but WHICH unnamed object sits where
+	// can meet on one path. Arbitrary (non-contiguous) assignments of the pool to the architectures; a grouping,
+	// a second one with the same list lengths (two objects of different architectures swapped), repeated in turn.
+	unnamed := func(us ...[]pkgT) []poolIx {
+		var p []poolIx
+		for i, u := range us {
+			p = append(p, poolIx{Name: "", URI: fmt.Sprintf("https://unpinned%d.example/x", i), Pkgs: u})
+		}
+		return p
+	}
+	{
+		p := unnamed(only, common, []pkgT{{Name: "common", Version: "1"}, {Name: "third", Version: "1"}})
+		a := func(self, n string) hCall { return mkCall(p, []group{g("x", 0, 1), g("y", 2)}, self, n) }
+		b := func(self, n string) hCall { return mkCall(p, []group{g("x", 0, 2), g("y", 1)}, self, n) }
+		add(&history{Note: "unnamed indexes: {x:[i0,i1], y:[i2]} and {x:[i0,i2], y:[i1]} in turn (same lengths, same names, other objects)", Pool: p,
+			Calls: []hCall{a("x", "only"), b("x", "third"), a("x", "only"), b("y", "common"), a("y", "third"), b("x", "only")}}, "corpus/unnamed")
+		// the same concatenation split the other way round: {x:[i0], y:[i1,i2]} listed x,y and {x:[i2], y:[i0,i1]} listed y,x
+		// both read i0,i1,i2 and have lists of the same lengths under the same keys
+		// q is in i0 and i1, not in i2: available everywhere in the first grouping, missing on x in the second
+		rp := unnamed([]pkgT{{Name: "only", Version: "1"}, {Name: "q", Version: "1"}}, []pkgT{{Name: "q", Version: "1"}}, []pkgT{{Name: "third", Version: "1"}})
+		ra := func(self, n string) hCall { return mkCall(rp, []group{g("x", 0), g("y", 1, 2)}, self, n) }
+		rb := func(self, n string) hCall { return mkCall(rp, []group{g("x", 2), g("y", 0, 1)}, self, n) }
+		add(&history{Note: "unnamed indexes: {x:[i0], y:[i1,i2]} and {x:[i2], y:[i0,i1]} in turn: one concatenation, same lengths, other groupings; q is missing on x in the second only", Pool: rp,
+			Calls: []hCall{ra("x", "q"), rb("y", "q"), ra("y", "q"), rb("y", "q"), ra("x", "q"), rb("y", "q"), ra("y", "q"), rb("y", "q"), ra("x", "q"), rb("y", "q"), ra("x", "q"), rb("y", "q")}}, "corpus/unnamed")
+		m := func(self, n string) hCall { return mkCall(p, []group{g("x", 0), g("y", 1)}, self, n) }
+		add(&history{Note: "unnamed indexes: one grouping six times (the trie path follows map iteration: hits and misses)", Pool: p,
+			Calls: []hCall{m("x", "only"), m("y", "common"), m("x", "common"), m("x", "only"), m("y", "common"), m("x", "only")}}, "corpus/unnamed")
+	}
+	nu := 14
+	if tier == "thorough" {
+		nu = 300
+	}
+	for i := 0; i < nu; i++ {
+		np := 3 + r.Intn(2)
+		var us [][]pkgT
+		for k := 0; k < np; k++ {
+			u := smallUniverse()
+			for m := r.Intn(3); m > 0; m-- {
+				v := u[r.Intn(len(u))]
+				switch r.Intn(3) {
+				case 0:
+					u = without(u, v.Name, v.Version)
+				case 1:
+					u = append(u, pkgT{Name: v.Name, Version: strings.Replace(v.Version, "-r", "_p1-r", 1), Deps: v.Deps})
+				case 2:
+					u = append(u, pkgT{Name: fmt.Sprintf("only%d", k), Version: "1.0-r0"})
+				}
+			}
+			us = append(us, u)
+		}
+		p := unnamed(us...)
+		na := 2 + r.Intn(2)
+		assign := make([]int, np) // pool index -> architecture
+		for {
+			used := map[int]bool{}
+			for id := range assign {
+				assign[id] = r.Intn(na)
+				used[assign[id]] = true
+			}
+			if len(used) == na {
+				break
+			}
+		}
+		groupsOf := func(as []int) []group {
+			gs := make([]group, na)
+			for a := range gs {
+				gs[a].Key = keys[a]
+			}
+			for id, a := range as {
+				gs[a].Ixs = append(gs[a].Ixs, id)
+			}
+			return gs
+		}
+		// the second grouping: two objects of different architectures change places, or (half of the histories) the
+		// concatenation of the first grouping, listed in some order of its architectures, split again in ANOTHER order
+		// of the architectures with every architecture keeping its length (the two groupings can then meet on one path)
+		swapped := append([]int(nil), assign...)
+		if r.Bool() {
+			for tries := 0; tries < 20; tries++ {
+				x, y := r.Intn(np), r.Intn(np)
+				if assign[x] != assign[y] {
+					swapped[x], swapped[y] = assign[y], assign[x]
+					break
+				}
+			}
+		} else {
+			gs := groupsOf(assign)
+			perm := func() []int {
+				o := make([]int, na)
+				for i := range o {
+					o[i] = i
+				}
+				for a := na - 1; a > 0; a-- {
+					b := r.Intn(a + 1)
+					o[a], o[b] = o[b], o[a]
+				}
+				return o
+			}
+			var concat []int
+			for _, a := range perm() {
+				concat = append(concat, gs[a].Ixs...)
+			}
+			at := 0
+			for _, a := range perm() {
+				for range gs[a].Ixs {
+					swapped[concat[at]] = a
+					at++
+				}
+			}
+		}
+		h := &history{Pool: p}
+		nc := 4 + r.Intn(3)
+		for c := 0; c < nc; c++ {
+			gs := groupsOf(assign)
+			if c%2 == 1 {
+				gs = groupsOf(swapped)
+			}
+			self := r.Intn(len(gs))
+			call := mkCall(p, gs, gs[self].Key)
+			call.World = []string{request(p, call.Own, gal.Pick(r, names))}
+			h.Calls = append(h.Calls, call)
+		}
+		add(h, "generated/unnamed")
+	}
 	return wr.Flush()
 }
